@@ -5288,6 +5288,9 @@ class PyCdlib:
 
         for entry in entries_to_remove:
             if entry.inode is not None:
+                # Without El Torito the file is an ordinary file again and
+                # must not be patched with a boot info table any more.
+                entry.inode.boot_info_table = None
                 new_list = []
                 for linkrec, is_pvd in entry.inode.linked_records:
                     if id(linkrec) != id(entry):
